@@ -36,11 +36,13 @@ func checkC15(c *Ctx) {
 		c15Handler(c, p, m)
 		handleDecision(c, p, m)
 		c15Bridge(c, p, m)
+		c01Decision(c, p, m)
 		c08Stores(c, p, m)
 	}
 	r.Rule("R08.1", "(shared with C08) a record carries all ITS attributes: nothing on the adapter's and the printer's path writes memory that outlives the call (a per-handler scratch list reused between records lets two overlapping Handle calls exchange their attributes)")
 	r.Rule("R08.2", "(shared with C08) lists appended to or reordered in place belong to this call")
 	r.Rule("R12.5", "(shared with C12) no foreign level becomes terminating")
+	r.Rule("R01.3", "(shared with C01) exactly when the logger admits that severity: Entry.Enabled/EnabledContext apply Level.Enabled to the logger's own level as the holder and the requested severity as the argument")
 	c.Floor["R15.1"] = 5
 	c.Floor["R15.3"] = 7
 	c.Floor["R15.5"] = 4
@@ -363,6 +365,36 @@ func c15Handler(c *Ctx, p *Prog, m *Model) {
 			if !viaAttrs {
 				probs = append(probs, "does not walk rec.Attrs")
 			}
+			// no way out of the conversion that bypasses the handler's fields or the walk (e.g. a fast path for records
+			// without attributes of their own)
+			rets, _ := exitBlocks(conv)
+			for _, rb := range rets {
+				okPre, okWalk := false, false
+				for _, b := range conv.Blocks {
+					if !b.Dominates(rb) {
+						continue
+					}
+					for _, in := range b.Instrs {
+						if call, ok := in.(*ssa.Call); ok {
+							if isBuiltinCall(call, "append") && dependsOnParam(call.Common().Args[1], conv.Params[1]) {
+								okPre = true
+							}
+							if cal := calleeOf(call); cal != nil && cal.String() == "(log/slog.Record).Attrs" {
+								okWalk = true
+							}
+						}
+					}
+				}
+				if ret := rb.Instrs[len(rb.Instrs)-1].(*ssa.Return); len(ret.Results) == 1 && ret.Results[0] == ssa.Value(conv.Params[1]) {
+					okPre = true // returns the handler's fields themselves
+				}
+				if !okPre {
+					probs = append(probs, "a return at "+p.Pos(instrPos(rb.Instrs[len(rb.Instrs)-1]))+" is reached without the handler's own fields having been put into the result (fields bound by WithAttrs/WithGroup are lost for such records)")
+				}
+				if !okWalk && okPre {
+					probs = append(probs, "a return at "+p.Pos(instrPos(rb.Instrs[len(rb.Instrs)-1]))+" is reached without the walk over the record's attributes")
+				}
+			}
 			r.Check(len(probs) == 0, "R15.3", "convertLogSlogRecordAttrs", p.FuncPos(conv), "handler fields first, then every record attribute converted", strings.Join(probs, "; "))
 		}
 		// exhaustive Kind switch
@@ -460,11 +492,47 @@ func c15Handler(c *Ctx, p *Prog, m *Model) {
 			for _, cs := range callsIn(caf) {
 				if cal := calleeOf(cs); cal != nil && cal.String() == "(log/slog.Value).Resolve" {
 					res = true
+					// what Resolve returns can be of any kind (a group included): it goes through the kind switch again,
+					// not straight to the generic Any arm
+					rc, _ := cs.(*ssa.Call)
+					again := false
+					for _, c2 := range callsIn(caf) {
+						if calleeOf(c2) == caf && cs.Block().Dominates(c2.Block()) {
+							again = true
+						}
+					}
+					if !again {
+						// loop form: the resolved value replaces the attribute's value and the kind switch runs again
+						if _, body := natLoop(cs.Block()); body != nil {
+							for _, c2 := range callsIn(caf) {
+								if cal2 := calleeOf(c2); cal2 != nil && cal2.String() == "(log/slog.Value).Kind" && body[c2.Block()] {
+									again = true
+								}
+							}
+						}
+					}
+					direct := false
+					if rc != nil {
+						for _, ref := range *rc.Referrers() {
+							if c3, ok := ref.(ssa.CallInstruction); ok {
+								if cal3 := calleeOf(c3); cal3 != nil && cal3.Pkg != nil && cal3.Pkg.Pkg.Path() == "log/slog" && cal3.Name() != "Resolve" {
+									direct = true
+								}
+							}
+						}
+					}
+					r.Check(again && !direct, "R15.3", "convertAttrToField:logvaluer-kind", p.Pos(instrPos(cs)), "the resolved value goes through the kind switch again", "the value a LogValuer resolves to is taken by a generic accessor instead of going through the kind switch again: a resolved group is not nested and its members are not converted")
 				}
 			}
 			r.Check(res, "R15.3", "convertAttrToField:logvaluer", p.FuncPos(caf), "LogValuers are resolved", "LogValuer values are not resolved")
 		}
 	}
+	c15Derived(c, p, m)
+}
+
+// c15Derived (R15.4): derived handlers keep the logger and own a fresh field list.
+func c15Derived(c *Ctx, p *Prog, m *Model) {
+	r := c.R
 	// R15.4
 	wf := p.Method(p.Slog, "handler4LogSlog", "withFields")
 	if wf == nil {
